@@ -94,6 +94,15 @@ func VerifC04_Loop() {
 	if indexForm {
 		form = "(i, " + varName + ") in xs"
 	}
+	// the same forms written with other (legal) spacing
+	switch zzChoice("spacing", zzBound("spacings", 2, 4)) {
+	case 1:
+		form = " " + strings.ReplaceAll(form, " in ", "  in  ") + " "
+	case 2:
+		form = strings.ReplaceAll(form, "(i, ", "(i,")
+	case 3:
+		form = strings.ReplaceAll(strings.ReplaceAll(form, "(i, ", "( i , "), ") in", " ) in")
+	}
 	cond := ""
 	if withIf {
 		cond = ` v-if="` + varName + ` != 'skip'"`
